@@ -304,6 +304,7 @@ class LowerToIRVisitor(Visitor.DefaultVisitor):
         # We lower this as following:
         # start:
         #   body
+        # cond:
         #   if (condition) goto start: else goto end:
         # end:
         startBB = ctx.CreateBasicBlock()
@@ -313,7 +314,9 @@ class LowerToIRVisitor(Visitor.DefaultVisitor):
         self.v_Visit(expr.GetBody(), ctx)
         breakContinueInstructions = ctx.EndLoop()
 
-        # Conditional jump back to start or to end
+        # Conditional jump back to start or to end. The condition gets its own
+        # block, as ``continue`` has to evaluate it again
+        condBB = ctx.CreateBasicBlock()
         condition = self.v_Visit(expr.GetCondition(), ctx)
         branch = LinearIR.BranchInstruction(startBB, None, condition)
         ctx.BasicBlock.AddInstruction(branch)
@@ -322,7 +325,7 @@ class LowerToIRVisitor(Visitor.DefaultVisitor):
         branch.SetFalseBlock(endBB)
 
         breakContinueInstructions.SetBreakTarget(endBB)
-        breakContinueInstructions.SetContinueTarget(startBB)
+        breakContinueInstructions.SetContinueTarget(condBB)
 
     def v_WhileStatement(self, expr: ast.WhileStatement, ctx: Context):
         # We lower this as following
